@@ -29,6 +29,12 @@ class BaseCore : public InlineCore {
     return callback == kEmpty;
   }
 
+  // The result is stored, unlike !Empty() which is also true while some callback is only registered
+  bool Ready() const noexcept {
+    auto callback = _callback.load(std::memory_order_acquire);
+    return callback == kResult;
+  }
+
   template <bool Shared>
   void TransferExecutorTo(BaseCore& callback) noexcept {
     if (!callback._executor) {
